@@ -35,6 +35,7 @@ type seqRunner struct {
 	expLoadOK, expLoadFail  uint64
 	expEvictions, expEvictW uint64
 	prevStats               [6]uint64
+	probe                   bool
 }
 
 func newSeqRunner(cfg CacheCfg) *seqRunner {
@@ -50,8 +51,19 @@ func (s *seqRunner) fail(kind, subject, format string, args ...any) {
 	s.disc = append(s.disc, seqDisc{Discrepancy{Kind: kind, Subject: subject, Detail: fmt.Sprintf(format, args...)}, s.step})
 }
 
+func stripOpts(op string) string {
+	var f []string
+	for _, tok := range strings.Fields(op) {
+		if strings.HasPrefix(tok, "ttl=") || strings.HasPrefix(tok, "rttl=") {
+			continue
+		}
+		f = append(f, tok)
+	}
+	return strings.Join(f, " ")
+}
+
 func opKey(op string) (int, bool) {
-	f := strings.Fields(op)
+	f := strings.Fields(stripOpts(op))
 	if len(f) < 2 || strings.Contains(f[1], ",") {
 		return 0, false
 	}
@@ -72,6 +84,7 @@ func (s *seqRunner) apply(op string) OpResult {
 		s.counters["ops-on-expired-unswept"]++
 	}
 	// C20: lookups counted by the counting operations, judged on the abstract map before the op
+	preHits, preMisses := s.expHits, s.expMisses
 	if s.cfg.Stats {
 		f := strings.Fields(op)
 		switch f[0] {
@@ -97,6 +110,13 @@ func (s *seqRunner) apply(op string) OpResult {
 		}
 	}
 	res := r.Do(-1, op)
+	if res.Panic != "" && s.r.Counter != nil && strings.Contains(res.Panic, "compute panic") {
+		// whether an operation that panicked counts as a lookup is not specified: follow the recorder
+		st := s.r.Counter.Snapshot()
+		if st.Hits+st.Misses == preHits+preMisses {
+			s.expHits, s.expMisses = preHits, preMisses
+		}
+	}
 	hooks := r.Calcs[s.nCalcs:]
 	loads := r.Loads[s.nLoads:]
 	s.nCalcs, s.nLoads = len(r.Calcs), len(r.Loads)
@@ -110,7 +130,7 @@ func (s *seqRunner) apply(op string) OpResult {
 	_ = preStale
 	preTotal := m.totalWeight()
 	m.added = 0
-	ex := m.Step(op, res, hooks, loads, s.deferred)
+	ex := m.Step(stripOpts(op), res, hooks, loads, s.deferred)
 	trans := preTotal + m.added // upper bound of the total weight at any instant of this op
 	iterOp := ex.mapRes != nil && strings.HasPrefix(op, "all") || ex.isList
 
@@ -185,7 +205,7 @@ func (s *seqRunner) apply(op string) OpResult {
 		}
 	}
 	// 2. loader invocations
-	if ex.checkLoads {
+	if ex.checkLoads && !loaderPanicked {
 		var got []string
 		for _, lc := range loads {
 			ks := append([]int(nil), lc.Keys...)
@@ -251,6 +271,18 @@ func (s *seqRunner) apply(op string) OpResult {
 			}
 		}
 		if matched {
+			continue
+		}
+		optional := false
+		for i, pe := range ex.optional {
+			if pe.key == ev.Key && pe.val == ev.Val && len(pe.causes) > 0 && pe.causes[0] == ev.Cause {
+				ex.optional = append(ex.optional[:i], ex.optional[i+1:]...)
+				delete(m.m, ev.Key)
+				optional = true
+				break
+			}
+		}
+		if optional {
 			continue
 		}
 		// automatic removal
@@ -345,6 +377,78 @@ func (s *seqRunner) apply(op string) OpResult {
 	}
 	// 5. state comparison
 	s.compareState(op, name)
+	// 5b. visibility probes (C12): visible at deadline-1, invisible at deadline; never-expiring if the sum overflowed
+	if s.probe && s.cfg.Expiry != "" {
+		saved := r.Clock.now
+		for _, kk := range m.liveKeys() {
+			e := m.m[kk]
+			if e.exp != never {
+				r.Clock.now = e.exp - 1
+				if _, ok := r.C.GetEntryQuietly(kk); !ok && e.exp-1 >= saved {
+					s.fail("invisible-before-deadline", name, "after op %q key %d (deadline %d) is not visible at clock deadline-1", op, kk, e.exp)
+				}
+				r.Clock.now = e.exp
+				if _, ok := r.C.GetEntryQuietly(kk); ok {
+					s.fail("visible-at-deadline", name, "after op %q key %d (deadline %d) is still visible at clock = deadline", op, kk, e.exp)
+				}
+			} else {
+				for _, t := range []int64{saved + 1, satAdd(saved, 10*365*24*3600*1e9), never - 1} {
+					r.Clock.now = t
+					if _, ok := r.C.GetEntryQuietly(kk); !ok {
+						s.fail("deadline-wrapped", name, "after op %q key %d should effectively never expire (time + duration exceeds the representable range) but is invisible at clock %d", op, kk, t)
+						break
+					}
+				}
+			}
+			s.counters["probes"]++
+		}
+		r.Clock.now = saved
+	}
+	// 5c. explicit refreshes deliver exactly one result per call (C11)
+	if !s.deferred || len(r.Deferred) == 0 {
+		for _, rc := range r.refreshChans {
+			select {
+			case v := <-rc.ch:
+				_ = v
+				s.counters["refresh-results"]++
+				select {
+				case <-rc.ch:
+					s.fail("refresh-channel", "Refresh", "%q delivered a second result on its channel", rc.op)
+				default:
+				}
+			default:
+				s.fail("refresh-channel", "Refresh", "%q delivered no result on its channel although the executor has run", rc.op)
+			}
+		}
+		r.refreshChans = nil
+		for _, rc := range r.bulkRefreshChans {
+			select {
+			case v := <-rc.ch:
+				want := map[int]bool{}
+				for _, kk := range keyList(strings.Fields(stripOpts(rc.op))[1]) {
+					want[kk] = true
+				}
+				got := map[int]int{}
+				for _, rr := range v {
+					got[rr.Key]++
+				}
+				for kk := range want {
+					if got[kk] != 1 {
+						s.fail("refresh-channel", "BulkRefresh", "%q delivered %d results for key %d", rc.op, got[kk], kk)
+					}
+				}
+				s.counters["refresh-results"]++
+				select {
+				case <-rc.ch:
+					s.fail("refresh-channel", "BulkRefresh", "%q delivered a second result on its channel", rc.op)
+				default:
+				}
+			default:
+				s.fail("refresh-channel", "BulkRefresh", "%q delivered no result on its channel although the executor has run", rc.op)
+			}
+		}
+		r.bulkRefreshChans = nil
+	}
 	// 6. sweep guarantee (C13)
 	if strings.HasPrefix(op, "cleanup") && s.cfg.Expiry != "" {
 		for kk, e := range m.m {
@@ -525,6 +629,7 @@ type seqParams struct {
 	Prefixes [][]string `json:"prefixes,omitempty"` // explored from each of these non-initial states (default: the empty prefix)
 	Kinds    []string   `json:"kinds,omitempty"`    // discrepancy kinds that count for this property (empty = all)
 	Stats    bool       `json:"stats,omitempty"`
+	Probe    bool       `json:"probe,omitempty"`
 }
 
 func init() {
@@ -558,6 +663,7 @@ func seqExplore(res *Result, raw json.RawMessage, job *Job) {
 	run := func(ops []string, newFrom int) (string, bool) {
 		defer Progress.Add(1)
 		s := newSeqRunner(p.Cfg)
+		s.probe = p.Probe
 		defer s.close()
 		var obs []string
 		func() {
